@@ -72,7 +72,9 @@ impl<'i> SmlParse<'i> for TypeLengthField {
             input = input_new;
             has_more_bytes = has_more_bytes_new;
 
-            len = match len.checked_shl(4) {
+            // `checked_shl` only rejects shift amounts >= 32; bits shifted out of the
+            // value are what has to be detected here
+            len = match len.checked_mul(16) {
                 Some(l) => l,
                 None => {
                     return Err(TlfParseError::TlfLengthOverflow.into());
